@@ -122,6 +122,9 @@ pub fn replay_one(b: &Value, rng: &mut StdRng) -> Option<String> {
         // --- solve: only when every non-finite row is a dropped nonnegative row
         let solvable = (0..m).all(|i| bcls[i] == "fin" || !keep_exp[i]);
         if !solvable { return None; }
+        // (now and then the switch is flipped on the live object first: it was consumed by the constructor - the rows are
+        //  gone or kept for good - so the solve and the restored vectors must not depend on it any more)
+        if rng.gen::<f64>() < 0.25 { solver.settings.presolve_enable = !solver.settings.presolve_enable; }
         solver.solve();
         let sol = &solver.solution;
         if sol.x.len() != n || sol.s.len() != m || sol.z.len() != m { return Some("returned vectors do not have the user's lengths".into()); }
